@@ -207,7 +207,6 @@ def gen_reduce(ctx):
         return ""
 
     out = [HEADER % "src/pendulum/{date,datetime,time,duration,interval,tz/timezone}.py (pickle / copy protocol methods)"]
-    out.append("Open Scope string_scope.\n")
 
     def sl(xs):
         return "[" + "; ".join(coq_string(x) for x in xs) + "]"
